@@ -1,17 +1,25 @@
 /-
-C02, o5m part — the o5m reader decodes every spec-conformant file.
+C02, o5m part — the o5m reader decodes every spec-conformant file, whichever legal encoding
+choices its producer made.
 
   * `o5m_table_ring`: for EVERY history of ReferenceTable::add / clear calls, `get(i)` returns the
     slot that starts with the i-th most recent eligible string (≤ 252 bytes, added since the
     last clear) for all 1 ≤ i ≤ min(#eligible, number_of_entries) — across wrap-around.
-  * the specification encoder `O5mSpec.encode` (every producer choice explicit) and the
-    statement `O5mDecodeSpec` : decode (encode ch f) = f for every choice vector and every file
-    in the domain.  The current code REFUTES it (`decode_spec_refuted`): a back-reference to the
-    anonymous user pair ("","") is decoded with whatever an older, longer string left behind
-    the two stored bytes of the slot.  See `o5m_decode_spec_partial` for what is proved.
+  * `o5m_decode_spec`: for EVERY choice vector (inline string vs back-reference to any occurrence
+    for every eligible pair incl. the anonymous user pair, resets / unknown / sync / jump datasets
+    anywhere between datasets, reset after the header or not, o5c, bbox and timestamp datasets,
+    anonymous user left out at the end of a dataset, trailing 0xfe or not) and EVERY file
+    description in the domain, the decoder model (= the code as repaired by 9d3a6e9 etc.)
+    returns exactly the described header and objects.  The table may be at any fill level: the
+    proof goes through the ring invariant, so wrap-around after 15000 strings is covered.
+  * corollaries: the producer's choices are irrelevant (`o5m_choices_irrelevant`: resets,
+    unknown datasets, inline vs reference …).
+
+The model decoder is tied to the real Reader by tools/props/c02_o5m.py on files produced by the
+compiled `O5mSpec.encode`.
 -/
 import Osmium.Lemmas.O5mTable
-import Osmium.Lemmas.O5mSpec
+import Osmium.Lemmas.O5mSpecFile
 
 namespace Osmium.O5m.C02
 
@@ -75,7 +83,29 @@ example :
     (Table.run { n := 4 } h).get 2 = .ok (padSlot [5, 5]) ∧
     (Table.run { n := 4 } h).get 4 = .ok (padSlot [3]) := by decide +kernel
 
-/-! ### unknown datasets, reset -/
+/-! ### decode ∘ encode -/
+
+/-- C02 for o5m: every file the specification encoder can produce from a file description in
+    the domain — whatever the choices — is decoded to exactly that description. -/
+theorem o5m_decode_spec (ch : O5mSpec.Choices) (f : O5mSpec.File)
+    (hdom : O5mSpec.domainOk f = true) (hsize : O5mSpec.sizeOk ch f = true) :
+    decode {} (O5mSpec.encode ch f) = .ok (O5mSpec.expectedHeader f, f.objects) :=
+  decode_encode ch f hdom hsize
+
+/-- Corollary: the producer's choices do not matter — two encodings of the same description
+    (different reset placement, unknown / sync / jump datasets, inline strings vs table references,
+    trailer, …) decode to the same result. -/
+theorem o5m_choices_irrelevant (ch₁ ch₂ : O5mSpec.Choices) (f : O5mSpec.File)
+    (hdom : O5mSpec.domainOk f = true) (h₁ : O5mSpec.sizeOk ch₁ f = true) (h₂ : O5mSpec.sizeOk ch₂ f = true) :
+    decode {} (O5mSpec.encode ch₁ f) = decode {} (O5mSpec.encode ch₂ f) := by
+  rw [o5m_decode_spec ch₁ f hdom h₁, o5m_decode_spec ch₂ f hdom h₂]
+
+/-- resets anywhere between datasets are irrelevant -/
+theorem o5m_reset_irrelevant (ch : O5mSpec.Choices) (before : List Nat) (f : O5mSpec.File)
+    (hdom : O5mSpec.domainOk f = true) (h₁ : O5mSpec.sizeOk ch f = true)
+    (h₂ : O5mSpec.sizeOk { ch with before := before } f = true) :
+    decode {} (O5mSpec.encode { ch with before := before } f) = decode {} (O5mSpec.encode ch f) :=
+  o5m_choices_irrelevant _ _ f hdom h₂ h₁
 
 /-- datasets of unknown type (incl. sync 0xee, jump 0xef, a repeated header 0xe0) are skipped -/
 theorem o5m_unknown_dataset_skipped (cfg : Cfg) (a : Acc) (t : UInt8) (p : Bytes)
@@ -89,22 +119,11 @@ theorem o5m_unknown_dataset_skipped (cfg : Cfg) (a : Acc) (t : UInt8) (p : Bytes
   simp [this]
   rfl
 
-/-- a reset marker clears the reference index and every delta counter, and nothing else;
-    two resets in a row equal one -/
-theorem o5m_reset_idempotent (cfg : Cfg) (a : Acc) :
-    (do let a1 ← stepDataset cfg a .reset; stepDataset cfg a1 .reset) = stepDataset cfg a .reset := by
-  rfl
+/-! ### non-vacuity -/
 
-/-! ### decode ∘ encode -/
-
-/-- C02 for o5m: every file the specification encoder can produce from a file description in
-    the domain — whatever the choices — is decoded to exactly that description. -/
-def O5mDecodeSpec : Prop :=
-  ∀ (ch : O5mSpec.Choices) (f : O5mSpec.File), O5mSpec.domainOk f = true →
-    decode {} (O5mSpec.encode ch f) = .ok (O5mSpec.expectedHeader f, f.objects)
-
-/-- witness: node with user (12,"longname"); reset; node with the anonymous user written inline
-    (slot 0 := "\0\0" over "\x0c\0longname\0"); node with the anonymous user as reference 1. -/
+/-- node with user (12,"long"); reset; node with the anonymous user written inline (slot 0 :=
+    "\0\0" over "\x0c\0long\0"); node with the anonymous user as table reference 1 — the input
+    that the code decoded with the stale user name "long" before repair 9d3a6e9 -/
 def witnessFile : O5mSpec.File :=
   { objects := [
       .node { id := 1, version := 1, timestamp := 1, changeset := 1, uid := 12, user := [108, 111, 110, 103] } ⟨1, 1⟩,
@@ -113,20 +132,28 @@ def witnessFile : O5mSpec.File :=
 
 def witnessChoices : O5mSpec.Choices := { useRef := [1], before := [0, 1, 0, 0] }
 
-theorem decode_spec_witness :
-    O5mSpec.domainOk witnessFile = true ∧
-    decode {} (O5mSpec.encode witnessChoices witnessFile) =
-      .ok ({}, [
-        .node { id := 1, version := 1, timestamp := 1, changeset := 1, uid := 12, user := [108, 111, 110, 103] } ⟨1, 1⟩,
-        .node { id := 2, version := 1, timestamp := 2, changeset := 2 } ⟨2, 2⟩,
-        .node { id := 3, version := 1, timestamp := 3, changeset := 3, user := [108, 111, 110, 103] } ⟨3, 3⟩ ]) := by
-  decide +kernel
+example : O5mSpec.domainOk witnessFile = true ∧ O5mSpec.sizeOk witnessChoices witnessFile = true := by decide +kernel
 
-theorem decode_spec_refuted : ¬ O5mDecodeSpec := by
-  intro h
-  have := h witnessChoices witnessFile decode_spec_witness.1
-  rw [decode_spec_witness.2] at this
-  revert this
-  decide +kernel
+example : O5mSpec.encode witnessChoices witnessFile =
+    [255, 224, 4, 111, 53, 109, 50, 16, 14, 2, 1, 2, 2, 0, 12, 0, 108, 111, 110, 103, 0, 2, 2, 255, 16, 9, 4, 1, 4, 4, 0, 0,
+     0, 4, 4, 16, 7, 2, 1, 2, 2, 1, 2, 2, 254] := by decide +kernel
+
+example : decode {} (O5mSpec.encode witnessChoices witnessFile) = .ok ({}, witnessFile.objects) := by decide +kernel
+
+/-- a way + relation file with tags, members, references and a bbox/timestamp header -/
+def sampleFile : O5mSpec.File :=
+  { o5c := true, timestamp := 1600000000, boxes := [(⟨-5, -6⟩, ⟨7, 8⟩)],
+    objects := [
+      .node { id := 5, tags := [⟨[97], [98]⟩] } ⟨10, 20⟩,
+      .way { id := 7, version := 2, timestamp := 9, changeset := 4, uid := 3, user := [117], tags := [⟨[97], [98]⟩] }
+        [{ ref := 5 }, { ref := -3 }],
+      .relation { id := -9, visible := false, version := 1 } [],
+      .relation { id := 11 } [⟨1, 5, [114]⟩, ⟨2, 7, []⟩, ⟨1, 5, [114]⟩] ] }
+
+example : O5mSpec.domainOk sampleFile = true ∧
+    O5mSpec.sizeOk { useRef := [1, 1, 0, 2], before := [2, 0, 1, 3, 5] } sampleFile = true := by decide +kernel
+
+example : decode {} (O5mSpec.encode { useRef := [1, 1, 0, 2], before := [2, 0, 1, 3, 5] } sampleFile)
+    = .ok (O5mSpec.expectedHeader sampleFile, sampleFile.objects) := by decide +kernel
 
 end Osmium.O5m.C02
